@@ -169,6 +169,13 @@ def c16router : Drv where
            | some (p, g, []) => if singlePathExists g p then "ref=found" else "ref=none"
            | _ => "bad-op")
     | ["matchscid", a, s, h] => ((), if matches_an_scid (optNat a) (optNat s) (nat! h) then "1" else "0")
+    | ["pubcap", hmax, sats] =>
+      -- the TRANSLATED DirectedChannelInfo::effective_capacity and the translated max_htlc_from_capacity at saturation power 0
+      let cap := directed_channel_effective_capacity (nat! hmax) (optNat sats)
+      ((), (match cap with
+            | .total c m => "total " ++ toString c ++ " " ++ toString m
+            | .advertisedMaxHTLC a => "adv " ++ toString a
+            | _ => "other") ++ " max " ++ toString (max_htlc_from_capacity cap 0))
     | ["firsthop", mn, lim, cpmin, cpmax, outcap, incap, vsat, inmin, inmax, ann, scid, alias] =>
       -- the accessors of the FirstHop candidate of this ChannelDetails, from the TRANSLATED arms
       let d : FirstHopDetails :=
